@@ -55,6 +55,15 @@ def tz_(v):
     return _tz(v)
 
 
+def wrap_floor_block(e, cs):
+    """start of the block containing e for chunk size cs (0 for a zero-extent axis, where cs == 0)"""
+    import z3 as _z3
+    from pyvc.sym import tz as _tz, wrap as _wrap
+
+    ez, cz = _tz(e), _tz(cs)
+    return _wrap(_z3.If(cz <= 0, _z3.IntVal(0), (ez / cz) * cz))
+
+
 def tz_eq(a, b):
     from pyvc.sym import tz as _tz
 
@@ -794,7 +803,7 @@ class Scan(ArrayOpSpec):
             if tag == "GB":
                 # 1. blockwise scan: element e = fold of its own block up to e
                 # (bs: start of the block of x / scanned that contains e — the two arrays share their chunk grid)
-                blo = (lambda e, bs: bs if bs is not None else (e // cs) * cs)
+                blo = (lambda e, bs: bs if bs is not None else wrap_floor_block(e, cs))
                 if c.cfg["initial"]:
                     want = lambda e, bs=None: (fx(blo(e, bs))[0], fx(e)[0])  # noqa: E731
                 else:
